@@ -54,6 +54,7 @@ type Scenario struct {
 	ZeroStart       bool          `json:"zero_start,omitempty"` // StartHeight 0 is meant literally
 	E2              *E2Spec       `json:"e2,omitempty"`         // open-environment mode: one real node
 	Pools           map[int][]H   `json:"pools,omitempty"`      // per-node initial pool (overrides Pool)
+	Sweep           bool          `json:"sweep,omitempty"`      // C11: inadmissible-input sweep in every state (E2 only)
 	Oracle          string        `json:"oracle,omitempty"`     // extra world-level oracle: C08 | C09 | C16
 	ByzScript       []ByzStep     `json:"byz_script,omitempty"` // sends of the Byzantine member that are part of the base (cost 0)
 
@@ -738,6 +739,19 @@ func (w *World) apply(e Event) {
 		n.Reset()
 	case "tx":
 		n.SupplyTx(e.P)
+	case "txpool":
+		n.known[e.P] = true
+	case "sweep":
+		ins := sweepInputs(n)
+		if e.A >= len(ins) {
+			panic(harnessFault{"replay divergence: sweep input index out of range"})
+		}
+		if w.logOn {
+			w.logf("== inadmissible input: %s", ins[e.A])
+		}
+		if key, msg := n.applySweep(ins[e.A]); key != "" {
+			w.violate("C11", key, n, msg)
+		}
 	case "newtx":
 		if e.A == 1 {
 			if w.newTxDone >= len(w.sc.NewTxAt) {
